@@ -21,7 +21,7 @@ RULE = ('A generated ledger (G1); read sweep: spacing_before / spacing_after / r
         'is adjacent on the accessed side, or the run contains a newline, or the neighbour is an indent or a comment.')
 ASSUMPTIONS = ['read-back after assigning the empty string is not asserted (the accessor then legitimately sees the next run)', 'strings with a bare CR are not assigned']
 SHRINK_LISTS = ('ops', 'dirs')
-REQUIRED_CLASSES = ('read-sweep', 'write:before', 'write:after', 'zero-width-adjacent', 'run-with-newline', 'target:token', 'target:model')
+REQUIRED_CLASSES = ('lf:4', 'read-sweep', 'write:before', 'write:after', 'zero-width-adjacent', 'run-with-newline', 'target:token', 'target:model')
 WS = (O.Whitespace, O.Newline)
 
 
@@ -76,11 +76,20 @@ def check_read(root: Any, m: Any, order: O.Order) -> Optional[tuple]:
 
 
 def run_case(case: dict) -> Result:
+    from vf.gen import store as GS
+    old = GS.set_lf(int(case.get('lf', 1000)))
+    try:
+        return _run(case)
+    finally:
+        GS.restore_lf(old)
+
+
+def _run(case: dict) -> Result:
     res = Result()
     root = common.parse_case(case, claim=bool(case.get('claim', True)))
     if root is None:
         return Result(discard=True)
-    classes = set()
+    classes = {'lf:%d' % int(case.get('lf', 1000))}
     order = O.Order(root.token_store)
     if case.get('sweep', True):
         classes.add('read-sweep')
@@ -183,9 +192,16 @@ def _build(tier: str):
     cfg = L.Cfg(max_dirs=4 if tier == 'quick' else 8)
 
     def build(rnd: Any) -> dict:
+        from vf.gen import store as GS
         g = L.G(rnd, cfg)
         claim = g.p(0.7)
-        case = OPS.build_program(rnd, cfg, ['space'], 6, lambda t: common.parse_file(t, claim))
+        lf = 4 if g.p(0.35) else 1000   # a small block size makes ordinary documents span many store blocks
+        old = GS.set_lf(lf)
+        try:
+            case = OPS.build_program(rnd, cfg, ['space'], 6, lambda t: common.parse_file(t, claim))
+        finally:
+            GS.restore_lf(old)
+        case['lf'] = lf
         for op in case['ops']:
             if g.p(0.5):
                 op['text'] = ''.join(g.pick([' ', ' ', '\t', '\n', '\r\n']) for _ in range(g.n(0, 6)))
